@@ -11,6 +11,7 @@ COMMON_TRUSTED = [
 
 # (file under coq/Gen, acra-vh arguments that print it): regenerated from /repo on every run
 GENERATORS = [
+    ("WireConsts.v", ["wireconsts"]),
     ("Consts.v", ["consts"]),
 ]
 
@@ -20,6 +21,26 @@ def dom(name, run_mod, nq, nt, model=True):
 
 
 PROPS = {
+    "C12": {
+        "domains": [
+            {
+                "name": "c12",
+                "run_vo": "Model/RunWire.vo",
+                "n_quick": 150,
+                "n_thorough": 2500,
+                "model": True
+            }
+        ],
+        "trusted": [
+            "modelled, not verified: Go's io.ReadFull/io.CopyN/bytes.Buffer/bufio.Writer (a reader over a byte stream yields the next n bytes or an error), encoding/binary, encoding/hex, unicode/utf8 ([]rune conversion and EncodeRune are written out in Model/Bytea.v and replayed against the real functions)",
+            "the literal tag bytes 0xfb..0xfe and bounds 250/0xffff/0xffffff of decryptor/mysql/base/utils.go are written in the model (they are not named constants); the replay of the boundary table on every run ties them to the code",
+            "not modelled (differential oracle + independent codec pgproto3 only): Bind round-trip theorem (model and replay exist, no theorem), Parse packets, RowDescription/ParameterDescription rewriting, MySQL 3-byte packet framing, binary-protocol rows and NULL bitmap"
+        ],
+        "assumptions": [
+            "message/payload lengths below 2^32 and column counts below 2^16 where the protocol's own fields are that wide (premises of the theorems)",
+            "len(data) < 2^63 for Go slices (premise of wire_lenenc_string_total / wire_text_row_total)"
+        ]
+    },
     "C03": {
         "domains": [dom("c03", "Model.RunEnvelope", 5, 60)],
         "trusted": ["'Forgery' in the theorems is an explicit witness (a successful AEAD opening of a ciphertext never produced under that key/context); Themis' actual unforgeability is outside the theorems",
